@@ -250,7 +250,13 @@ theorem close_core (w w' : World) (sid : Nat) (reason : String) (x : RS) (i : In
       exact ⟨⟨r1, e1, fun hn => absurd hrs hn⟩, ⟨r2, e2, fun hn => absurd hrs hn⟩, ⟨r3, e3, fun hn => absurd hrs hn⟩,
              by rw [hupg]; exact h.up⟩
     · exact h.same (other j hj)
-  refine ⟨⟨?_, ?_, ?_, ?_, ?_, ?_, ?_, hacc'⟩, ⟨?_, ⟨_, hlog⟩, hreqs, Nat.le_of_eq size.symm, ?_, ?_, ?_⟩⟩
+  have hro : ∀ j ∈ w'.registry, (w'.sock j).rs ≠ .opening := by
+    intro j hm
+    rw [hreg] at hm
+    have hm' := List.mem_filter.mp hm
+    have hj : j ≠ sid := by simpa using hm'.2
+    rw [(other j hj).rs]; exact i.regOpen j hm'.1
+  refine ⟨⟨?_, ?_, ?_, ?_, ?_, ?_, ?_, hacc', hro⟩, ⟨?_, ⟨_, hlog⟩, hreqs, Nat.le_of_eq size.symm, ?_, ?_, ?_⟩⟩
   · rw [hlog]
     exact logOK_snoc _ _ i.logOK (fun _ hc => hnc (i.logClosed sid hc))
   · intro j hc
